@@ -337,8 +337,8 @@ class ClassDiagram:
         Build parent map from inheritance edges: child_idx -> set(parent_idx)
         """
         parent_map: dict[int, set[int]] = {}
-        for u, v in self._dependency_graph.edge_list():
-            rel = self._dependency_graph.get_edge_data(u, v)
+        # get_edge_data(u, v) returns only one of several parallel edges, weighted_edge_list every edge with its own data
+        for u, v, rel in self._dependency_graph.weighted_edge_list():
             if isinstance(rel, Inheritance):
                 parent_map.setdefault(v, set()).add(u)
         return parent_map
